@@ -6,16 +6,18 @@
    body limit: P returns a result or an error, does not panic, terminates, and consumes no input beyond the
    message it returns.
 
-   What is PROVED here (hence the suffix _partial: the theorems cover the HEAD parsers only — RequestHeader.parse
-   + validate and ResponseHeader.parse with everything they call: nextLine, readRawHeaders, the headerScanner,
-   isValidHeaderKey, parseContentLength, SetTrailerBytes/isBadTrailer, ...).  In the models every Go index and
-   slice expression is a checked accessor returning Panic, every search loop runs on fuel returning OutOfFuel;
-   the theorems say these two results are unreachable for ALL inputs and configurations, and that an accepted
-   head consumes exactly the head's own length by fasthttp's line rule.  The remaining parsers of the list
-   (bodies, trailers, Cookie, URI, Args, ParseByteRange, VisitHeaderParams, multipart) are covered by the
-   fuzzing harness only (search for panics / hangs / over-reads on the real code; see props/C08.json) —
-   EXCEPT the body readers and the trailer framing, which are proved in the section "body readers (Model/Body.v)"
-   appended at the end of this file. *)
+   STATUS of the parser list (see the three sections of this file):
+     head parsers (RequestHeader.parse + validate, ResponseHeader.parse and all they call) ... PROVED here, first
+       section; the theorems keep the suffix _partial because each covers one family of the property's list.  In the
+       models every Go index / slice expression is a checked accessor returning Panic and every search loop runs
+       on fuel returning OutOfFuel; both are unreachable for ALL inputs and configurations, and an accepted head
+       consumes exactly the head's own length by fasthttp's line rule.
+     body readers and trailer framing ... PROVED, second section (Model/Body.v, owner m-c07-c34).
+     VisitHeaderParams ... PROVED panic-free and terminating (Model/HeaderParams.v, explicit bounds checks).
+     Args.ParseBytes, Cookie.ParseBytes, URI.Parse, ParseByteRange ... PROVED to terminate with a result or an error
+       on the value-level models of C28 / C06 / C27+C26+C31 / C24 (no Panic constructor there: Go panics of these
+       four are searched for by the fuzzing harness).
+     multipart form ... harness only (the model stands for mime/multipart; see the third section's header). *)
 From FH Require Import Model.Base Model.Lines Model.ReqHead Model.RespHead Spec.HeadSpec
   Proof.ScannerProof Proof.HeadTotalProof.
 Open Scope nat_scope.
@@ -158,4 +160,61 @@ Example C08_ex_chunk_size_boundary :
   (* with a limit the huge size is rejected before anything is allocated; without one the allocation panics *)
   /\ readBodyChunked 4096 [] (s2b "fffffffffffffff" ++ [13; 10; 120]%N) = BErr EBodyTooLarge [] 0
   /\ readBodyChunked 0 [] (s2b "fffffffffffffff" ++ [13; 10; 120]%N) = BPanic.
+Proof. vm_compute. repeat split; reflexivity. Qed.
+
+(* ====================================================================================================== *)
+(* value parsers — the parsers of the property's list that other properties model.  Each theorem says
+   "a result or an error, never the out-of-fuel artefact of the model" for EVERY byte string; proofs live in the
+   owners' Proof files, Proof/C08Extra.v, Proof/C08ExtraUri.v and Proof/HeaderParamsProof.v.
+   Panic-freedom is explicit only where the model has a Panic result (VisitHeaderParams, written for C08 with
+   checked idx / slice); the models of C06 / C24 / C26 / C27 / C28 / C31 are value-level (firstn / skipn / pattern
+   matching), so for them the theorems state termination with a result — Go panics of those parsers are searched
+   for by the fuzzing harness.  Multipart: no theorem — Model/Multipart.v stands for the standard library's
+   mime/multipart and its read_form returns a bare option in which "error" and "fuel exhausted" are the same None. *)
+From FH Require Model.Args Model.Cookie Model.ByteRange Model.IPv6 Model.PathNorm Model.Uri Model.HeaderParams
+  Proof.C08Extra Proof.C08ExtraUri Proof.HeaderParamsProof.
+
+(* Args.ParseBytes (args.go; model of C28): always Some *)
+Theorem C08_args_total : forall a input, exists a', Args.ParseBytes a input = Some a'.
+Proof. exact C08Extra.args_total. Qed.
+Print Assumptions C08_args_total.
+
+(* Cookie.ParseBytes (cookie.go; model of C06): a cookie or one of the error classes, never POutOfFuel *)
+Theorem C08_cookie_total : forall input, Cookie.ParseBytes input <> Cookie.POutOfFuel.
+Proof. exact C08Extra.cookie_total. Qed.
+Print Assumptions C08_cookie_total.
+
+(* ParseByteRange (fs.go; model of C24, fuel-free): an error, or a range inside the resource *)
+Theorem C08_byterange_total : forall input n, wf_bytes input ->
+  ByteRange.ParseByteRange input n = ByteRange.BRErr \/
+  exists s e, ByteRange.ParseByteRange input n = ByteRange.BROk s e /\ 0 <= s /\ s <= e /\ e < n.
+Proof. exact C08Extra.byterange_total. Qed.
+Print Assumptions C08_byterange_total.
+
+(* URI.Parse (uri.go; model of C27 over PathNorm C26 and IPv6 C31): a URI or an error other than the IPv6
+   validator's out-of-fuel artefact; the path normaliser inside never runs out of fuel *)
+Theorem C08_uri_total : forall host uri, wf_bytes host -> wf_bytes uri ->
+  (exists u, Uri.parse host uri = Uri.UOk u) \/
+  (exists e, Uri.parse host uri = Uri.UErr e /\ e <> Uri.ErrIPv6 IPv6.V6OutOfFuel).
+Proof. exact C08ExtraUri.uri_parse_total. Qed.
+Print Assumptions C08_uri_total.
+
+Theorem C08_uri_ipv6_total : forall host, wf_bytes host -> IPv6.validateIPv6Literal host <> IPv6.V6OutOfFuel.
+Proof. exact C08Extra.ipv6_total. Qed.
+Print Assumptions C08_uri_ipv6_total.
+
+Theorem C08_uri_path_total : forall src, exists r, PathNorm.normalizePath_opt src = Some r.
+Proof. exact C08Extra.normalizePath_total. Qed.
+Print Assumptions C08_uri_path_total.
+
+(* VisitHeaderParams (header.go; Model/HeaderParams.v, bounds checks explicit): never Panic, never OutOfFuel *)
+Theorem C08_header_params_total : forall input, exists r, HeaderParams.VisitHeaderParams input = Ok r.
+Proof. exact HeaderParamsProof.VisitHeaderParams_total. Qed.
+Print Assumptions C08_header_params_total.
+
+Example C08_ex_values :
+  HeaderParams.VisitHeaderParams (s2b "a/b; k=v; q=0.5") = Ok [(s2b "k", s2b "v"); (s2b "q", s2b "0.5")]
+  /\ HeaderParams.VisitHeaderParams (s2b "a; b=") = Ok []
+  /\ ByteRange.ParseByteRange (s2b "bytes=2-5") 10 = ByteRange.BROk 2 5
+  /\ ByteRange.ParseByteRange (s2b "bytes=5-") 3 = ByteRange.BRErr.
 Proof. vm_compute. repeat split; reflexivity. Qed.
